@@ -50,24 +50,9 @@ void ControlFlowExecutor::execute_while_statement(const ASTNode *node) {
             try {
                 debug_msg(DebugMsgId::INTERPRETER_WHILE_BODY_EXEC, iteration);
                 interpreter_->execute_statement(node->body.get());
-
-                // v0.12.0: auto_yieldモードの場合、各イテレーション後にyield
-                // これにより、whileループが他のタスクを独占しない
-                if (interpreter_->is_in_auto_yield_mode()) {
-                    throw YieldException(true); // ループ内の自動yield
-                }
-
-                // v0.13.0 Phase 2.0:
-                // 非auto_yieldモードでも、バックグラウンドタスクがあれば
-                // 各イテレーション後に1サイクル実行して協調的マルチタスクを実現
-                if (!interpreter_->is_in_auto_yield_mode()) {
-                    interpreter_->run_background_tasks_one_cycle();
-                }
-
-                iteration++;
             } catch (const ContinueException &e) {
-                // continue文でループ継続
-                continue;
+                // continue: fall through to the common end of the iteration
+                // (as the for loop does), so that it stays a suspension point
             } catch (const YieldException &yield_exc) {
                 // v0.12.0: auto_yieldモードでのyield
                 if (yield_exc.is_from_loop) {
@@ -76,6 +61,22 @@ void ControlFlowExecutor::execute_while_statement(const ASTNode *node) {
                 // 明示的なyieldはループ継続扱いにしてタスク側で同じステートメントを再開
                 throw YieldException(true);
             }
+
+            // end of the iteration (the body ran to its end or `continue`)
+            // v0.12.0: auto_yieldモードの場合、各イテレーション後にyield
+            // これにより、whileループが他のタスクを独占しない
+            if (interpreter_->is_in_auto_yield_mode()) {
+                throw YieldException(true); // ループ内の自動yield
+            }
+
+            // v0.13.0 Phase 2.0:
+            // 非auto_yieldモードでも、バックグラウンドタスクがあれば
+            // 各イテレーション後に1サイクル実行して協調的マルチタスクを実現
+            if (!interpreter_->is_in_auto_yield_mode()) {
+                interpreter_->run_background_tasks_one_cycle();
+            }
+
+            iteration++;
         }
     } catch (const BreakException &e) {
         // break文でループ脱出
